@@ -824,3 +824,34 @@ for _v, _l in _KINDS:
                    f"self is {_v} ==> r == kind_{_l}_rec({_d}, {RS0}) && {RS9} == kind_{_l}_rec_st({_d}, {RS0})"))
 unit(id="instruction.recreate", src=INS, path=[("impl", "Recreate for Instruction"), ("fn", "recreate")], impl="Instruction",
      fragments=["kinds"], omit=["instruction_recreate_stub"], no_safe=True, ensures=_rens2)
+
+# ---------------------------------------------------------------- equality by content (C19), unbounded ----
+_PTR_EQ = """// std::sync::Arc::ptr_eq on the model types of Arc<Function> / Arc<Mut>: pointer identity is the ghost id
+pub struct Arc;
+impl Arc {
+    #[verifier::external_body]
+    pub fn ptr_eq<T: HasId>(a: &T, b: &T) -> (r: bool) ensures r == (a.ident() == b.ident()) { unimplemented!() }
+}
+"""
+unit(id="array.eq", src="src/variable/array.rs", path=[("impl", "PartialEq for Array"), ("fn", "eq")], impl="ArrayVal",
+     mod="array_eq", fragments=["equality"],
+     unit_types=[dict(name="Array (value)", src="src/variable/array.rs", path=[("struct", "Array")],
+                      rewrites=[("pub struct Array", "pub struct ArrayVal"), ("Arc<[Variable]>", "Tup"), ("pub(crate) ", "pub ")])],
+     ensures=[
+         ("array.eq.elementwise_independent_of_stored_element_type", ["C19"],
+          "r == seq_struct_eq(self.elements.elems@, other.elements.elems@)"),
+     ])
+unit(id="variable.eq", src="src/variable.rs", path=[("impl", "PartialEq for Variable"), ("fn", "eq")], impl="Variable",
+     mod="variable_eq", fragments=["equality"], mod_extra=_PTR_EQ,
+     ensures=[
+         # the float-float arm compares `&f64 == &f64`, about which Verus knows nothing (vstd gives f64 no eq_spec): that one
+         # arm is the complete K harness c19_float_eq (IEEE equality, all 2^128 pairs); floats INSIDE arrays, tuples and
+         # structs are covered here through the induction hypothesis (struct_eq on the elements)
+         ("variable.eq.is_equality_by_content", ["C19"], "!(self is Float && other is Float) ==> r == struct_eq(*self, *other)"),
+         ("variable.eq.different_kinds_unequal", ["C19"],
+          "(self is Int && !(other is Int)) || (self is Array && !(other is Array)) || (self is Tuple && !(other is Tuple)) "
+          "|| (self is Void && !(other is Void)) || (self is String && !(other is String)) ==> !r"),
+         ("variable.eq.cells_and_functions_by_identity", ["C19"],
+          "(self is Mut && other is Mut ==> r == (self->Mut_0.id@ == other->Mut_0.id@)) "
+          "&& (self is Function && other is Function ==> r == (self->Function_0.id@ == other->Function_0.id@))"),
+     ])
